@@ -7,7 +7,7 @@ def cchar(b):
     return "char(%d)" % (b if b < 128 else b - 256)
 
 
-def tu_source(g, gid=None, dflt=(), limits=None, ctx=()):
+def tu_source(g, gid=None, dflt=(), limits=None, ctx=(), postprec=()):
     """g: gram.Grammar.  Terms are typed char terms with the observing functor, every rule gets RuleF{index}."""
     gid = gid or g.name
     o = ['#include "rt.hpp"', 'using namespace ctpg;', 'using vh::Node;', 'namespace G {',
@@ -25,9 +25,13 @@ def tu_source(g, gid=None, dflt=(), limits=None, ctx=()):
     for ri, (l, rhs, prec) in enumerate(g.rules):
         args = ', '.join('n%d' % ntid[x] if x in ntid else ('error' if x == 'error' else 't%d' % tid[x]) for x in rhs)
         r = 'n%d(%s)' % (ntid[l], args)
-        if prec != 0:
+        post = prec != 0 and ri in postprec and ri not in dflt       # precedence attached after the functor: (rule >= f)[p]
+        if prec != 0 and not post:
             r = '(%s[%d])' % (r, prec)
-        rl.append('        %s' % r if ri in dflt else ('        %s >>= vh::RuleFC{%d}' % (r, ri) if ri in ctx else '        %s >= vh::RuleF{%d}' % (r, ri)))
+        r = '%s' % r if ri in dflt else ('%s >>= vh::RuleFC{%d}' % (r, ri) if ri in ctx else '%s >= vh::RuleF{%d}' % (r, ri))
+        if post:
+            r = '(%s)[%d]' % (r, prec)
+        rl.append('        ' + r)
     if limits:
         o.append('struct Lim { static const size_t state_count_cap = %d; static const size_t max_sit_count_per_state_cap = %d; };' % tuple(limits))
     o.append('auto make() { return new parser(n%d,' % ntid[g.root])
